@@ -44,7 +44,7 @@ def required_cells(tier):
              "pat:escape", "pat:trailing-space", "pat:comment", "pat:negation", "pat:reinclude-below-excluded-dir", "pat:none",
              "pat:repeated-after-negation", "pat:leading-dot-slash", "multi-directory-code-base", "multi-directory:name-prefix-related", "pat:absolute-path-of-the-root-as-prefix", "name:line-break-character",
              "link:file-inside", "link:dir-inside", "link:outside", "link:dangling", "link:chain",
-             "spell:absolute", "spell:relative-root", "spell:relative-other-cwd", "spell:dot", "spell:dotdot", "spell:via-link",
+             "spell:absolute", "spell:relative-root", "spell:relative-other-cwd", "spell:dot", "spell:dotdot", "spell:via-link", "spell:same-spelling-other-cwd",
              "member:yes", "member:no-extension", "member:no-excluded", "member:no-outside", "member:no-directory",
              "member:no-missing", "iter", "outside:sibling-with-root-prefix", "name:vcs-directory", "name:tilde-first"]
     return cells
@@ -277,6 +277,13 @@ def check_case(ctx, git, tree, patterns, feats, base, cls):
     for sib in ("root-old/legacy.c", "root2/legacy.c", "rootfiles/src/legacy.c"):
         queries.append((sib, "absolute", os.path.join(os.path.dirname(root), sib), root))
         queries.append((sib, "relative-root", os.path.join("..", sib), root))
+    # the SAME relative string asked from different working directories on the one CodeBase object (it names different
+    # files, or none, depending on where the process stands)
+    real_dirs = [d for d in tree["dirs"] if d and os.path.isdir(os.path.join(root, d)) and not os.path.islink(os.path.join(root, d))][:3]
+    for f in list(tree["files"])[:4]:
+        b = os.path.basename(f)
+        for d in [""] + real_dirs:
+            queries.append((os.path.normpath(os.path.join(d, b)), "same-spelling-other-cwd", b, os.path.join(root, d) if d else root))
     for rel in rels:
         for kind, path, cwd in spellings(root, rel, rng, tree):
             queries.append((rel, kind if not any(rel == l or rel.startswith(l + "/") for l in tree["links"]) else "via-link", path, cwd or root))
@@ -488,7 +495,7 @@ def classify(patterns, observed, problem):
     if any(p.strip() == "!" for p in pats) and isinstance(observed, str) and "Error" in observed:
         return "lone-bang-pattern-raises"
     if problem and problem.get("expected") is False and problem.get("reason") == "excluded" and problem.get("observed") is True \
-            and "\n" in str(problem.get("query", "")):
+            and "\n" in (str(problem.get("query", "")) + str(problem.get("relative", "")) + str(problem.get("cwd", ""))):
         # git's wildcards (and the implicit "everything below a matched directory") match a line feed inside a name,
         # pathspec's regular expressions (`.*` without DOTALL) do not
         return "wildcard-does-not-match-newline-in-file-name"
